@@ -60,7 +60,7 @@ Unlock(l) == lk' = [lk EXCEPT ![l] = "free"]        \* not owner-checked, as in 
 Kind(p, st) == CASE p \in Writers -> "data" [] p = P -> "ping"
                  [] st \in {"rpong", "kpong", "cpong", "dpong"} -> "pong" [] OTHER -> "close"
 FrameLock(p, st, after) == /\ pc[p] = st \o "_wflock" /\ TryLock(p, "wf", st \o "_arm", after)
-                           /\ ret' = IF pc'[p] = after /\ p \in CtxProcs THEN [ret EXCEPT ![p] = "failed"] ELSE ret
+                           /\ ret' = IF pc'[p] = after /\ p \in CtxProcs \cup Writers THEN [ret EXCEPT ![p] = "failed"] ELSE ret
                            /\ U(<<closed, closing, sentClose, out, emitting, inq, pingActive, pongSig, peerDid, tl, wframe, armedW, cancelled, fired>>)
 (* closeSent is checked first (the fix), then the write context is handed to the timeoutLoop *)
 Refused(kind) == /\ sentClose
@@ -70,7 +70,7 @@ Refused(kind) == /\ sentClose
 (* left yet BOTH cases are ready and Go picks either -- a frame may still be started on a closed connection                      *)
 FrameArm(p, st) == /\ pc[p] = st \o "_arm"
                    /\ \/ /\ Refused(Kind(p, st)) \/ closed \/ tl # "running"
-                         /\ Goto(p, st \o "_wfunlock") /\ U(armedW) /\ ret' = (IF p \in CtxProcs THEN [ret EXCEPT ![p] = "failed"] ELSE ret)
+                         /\ Goto(p, st \o "_wfunlock") /\ U(armedW) /\ ret' = (IF p \in CtxProcs \cup Writers THEN [ret EXCEPT ![p] = "failed"] ELSE ret)
                       \/ /\ ~Refused(Kind(p, st)) /\ tl = "running"
                          /\ Goto(p, st \o "_hdr") /\ armedW' = (IF p \in CtxProcs THEN p ELSE "none") /\ U(ret)   \* c.writeTimeout <- ctx
                    /\ U(<<closed, closing, sentClose, lk, out, emitting, inq, pingActive, pongSig, peerDid, tl, wframe, cancelled, fired>>)
@@ -88,7 +88,7 @@ FramePay(p, st) == /\ pc[p] = st \o "_pay"
 (* on success the context is handed back: c.writeTimeout <- context.Background(); if the connection closed meanwhile the frame fails *)
 (* (the same select as in FrameArm: closed and a timeoutLoop that is still receiving make both cases ready)                        *)
 FrameDisarm(p, st) == /\ pc[p] = st \o "_disarm" /\ Goto(p, st \o "_wfunlock")
-                      /\ \/ (closed \/ tl # "running") /\ U(armedW) /\ ret' = (IF p \in CtxProcs THEN [ret EXCEPT ![p] = "failed"] ELSE ret)
+                      /\ \/ (closed \/ tl # "running") /\ U(armedW) /\ ret' = (IF p \in CtxProcs \cup Writers THEN [ret EXCEPT ![p] = "failed"] ELSE ret)
                          \/ tl = "running" /\ armedW' = (IF "NoRearm" \in Dev THEN armedW ELSE "none") /\ U(ret)
                       /\ U(<<closed, closing, sentClose, lk, out, emitting, inq, pingActive, pongSig, peerDid, tl, wframe, cancelled, fired>>)
 FrameUnlock(p, st, after) == /\ pc[p] = st \o "_wfunlock" /\ Unlock("wf") /\ Goto(p, after)
@@ -117,11 +117,18 @@ Frame(p, st, after) == FrameLock(p, st, after) \/ FrameArm(p, st) \/ FrameHdr(p,
 (* writer: msgWriter.reset (message lock), FramesOf[w] frames, unlock *)
 WMsgLock(w) == /\ pc[w] = "w_msglock" /\ TryLock(w, "msg", "w_wflock", "w_done")
                /\ U(<<closed, closing, sentClose, out, emitting, inq, pingActive, pongSig, peerDid, ret, tl, wframe, armedW, cancelled, fired>>)
+(* A streaming writer (msgWriter.Write / Close) whose frame could not be written, or that finds the connection closed between two *)
+(* frames, returns the error WITHOUT releasing the message lock (write.go: mw.mu.unlock() is the last statement of a successful   *)
+(* Close): the unfinished message stays on the wire, and nobody may start another one behind it.  Conn.Write of an uncompressed  *)
+(* message (one frame) releases the lock in a defer.  Dev "UnlockOnFailure": every return path of Close releases it.             *)
 WNext(w) == /\ pc[w] = "w_after"
-            /\ IF wframe[w] < FramesOf[w] /\ ~closed
-                 THEN wframe' = [wframe EXCEPT ![w] = wframe[w] + 1] /\ Goto(w, "w_wflock") /\ U(lk)
-                 ELSE Unlock("msg") /\ Goto(w, "w_done") /\ U(wframe)
-            /\ ret' = IF ~(wframe[w] < FramesOf[w] /\ ~closed) /\ ret[w] = "none" THEN [ret EXCEPT ![w] = "ok"] ELSE ret
+            /\ LET more == wframe[w] < FramesOf[w]  failedW == ret[w] = "failed" IN
+               /\ IF more /\ ~closed /\ ~failedW
+                    THEN wframe' = [wframe EXCEPT ![w] = wframe[w] + 1] /\ Goto(w, "w_wflock") /\ U(lk)
+                    ELSE IF w \in TwoFrame /\ (more \/ failedW) /\ "UnlockOnFailure" \notin Dev
+                      THEN Goto(w, "w_done") /\ U(<<lk, wframe>>)
+                      ELSE Unlock("msg") /\ Goto(w, "w_done") /\ U(wframe)
+               /\ ret' = IF ~(more /\ ~closed /\ ~failedW) /\ ret[w] = "none" THEN [ret EXCEPT ![w] = "ok"] ELSE ret
             /\ U(<<closed, closing, sentClose, out, emitting, inq, pingActive, pongSig, peerDid, tl, armedW, cancelled, fired>>)
 Writer(w) == WMsgLock(w) \/ Frame(w, "w", "w_after") \/ WNext(w)
 (* pinger: register, write the ping, wait for its pong or for the connection to close *)
@@ -286,6 +293,10 @@ FrameAtomic == \A i \in 1..Len(out) : out[i].part = "hdr" =>
 NoMsgInterleave == \A i, j \in 1..Len(Hdrs) :
                       (i < j /\ Hdrs[i].k = "data" /\ Hdrs[j].k = "data" /\ Hdrs[i].by = Hdrs[j].by /\ Hdrs[i].n = 1 /\ Hdrs[j].n = 2)
                         => \A m \in (i+1)..(j-1) : Hdrs[m].k # "data"
+(* ... and no data message starts while another writer's message is unfinished (its first frame out, its last one not) *)
+NoMsgInsideUnfinished == \A i, j \in 1..Len(Hdrs) :
+                      (i < j /\ Hdrs[i].k = "data" /\ Hdrs[j].k = "data" /\ Hdrs[i].by # Hdrs[j].by /\ Hdrs[i].n = 1 /\ FramesOf[Hdrs[i].by] = 2)
+                        => \E m \in (i+1)..(j-1) : Hdrs[m].k = "data" /\ Hdrs[m].by = Hdrs[i].by /\ Hdrs[m].n = 2
 MutexOK == \A l \in Locks : lk[l] \in {"free", "close", "TL"} \cup Procs
 EmitterHoldsLock == emitting # "none" => lk["wf"] = emitting
 (* C15 *)
